@@ -187,3 +187,58 @@ contract('pyx12.x12file.X12Reader.cleanup',
          serves=['C04'])
 
 
+
+
+# ---------------------------------------------------------------------------------------
+# C11: X12Writer
+from specs.writer import *
+from pyvc.contract import FOLD_TYPES
+
+ENTRY = Tup(Opaque('Segment'), Str, Str, Str, Str)
+FOLD_TYPES['wstep'] = (Tup(ListOf(LOOP), Int, Int, Int, Bool), ENTRY)
+
+
+def writer_state(depth):
+    return base_state('pyx12.x12file.X12Writer', loops=ListLit(*([LOOP] * depth)),
+                      fd_out=Obj('ext.TextOut', log=ListOf(ENTRY)),
+                      seg_term=Str, ele_term=Str, subele_term=Str, repetition_term=Str, eol=Str)
+
+
+W_INV = 'winv(readback(self.fd_out.log), self.loops, self.gs_count, self.st_count, self.seg_count)'
+W_REQ = ['wf_stack(self.loops)', 'ids_present(self.loops)', W_INV,
+         'self.hl_count >= 0 and self.lx_count >= 0 and self.gs_count >= 0 and self.st_count >= 0 and self.seg_count >= 0']
+
+contract('pyx12.x12file.X12Writer._get_trailer_segment',
+         self_type=writer_state(0),
+         params={'seg_id': Str, 'count': Int, 'id': Opt(Str)},
+         returns=MutOpaque('Segment'),
+         requires=['id is not None'],
+         ensures=['result.get_seg_id() == seg_id', "result.get_value('01') == str(count)", "result.get_value('02') == id",
+                  'len(result) == 2'],
+         raises={},
+         assume_only=True,
+         note='assumed here: follows from the parse contract of Segment.__init__ (C01) for a text '
+              '<seg_id><sep><count><sep><id> whose id is free of the writer delimiters')
+
+contract('pyx12.x12file.X12Writer.Write',
+         type_cases=[('depth %d' % d, {'self': writer_state(d)}) for d in range(4)],
+         params={'seg_data': MutOpaque('Segment')},
+         returns=NoneT,
+         requires=W_REQ + ['header_ok(self.loops, seg_data)'],
+         ensures=['wf_stack(self.loops)', 'ids_present(self.loops)', W_INV,
+                  "seg_data.get_seg_id() in ('IEA', 'GE', 'SE') or self.fd_out.log == old(self.fd_out.log) + [entry_of(seg_data, self)]",
+                  "seg_data.get_seg_id() in ('ISA', 'LX') or seg_val(seg_data) == old(seg_val(seg_data))",
+                  'self.hl_count >= 0 and self.lx_count >= 0 and self.gs_count >= 0 and self.st_count >= 0 and self.seg_count >= 0'],
+         raises={'X12Error': "seg_data.get_seg_id() == 'ISA' and len(seg_data) != 16"},
+         inline=['pyx12.x12file.X12Base._parse_segment'],
+         split_on=_IDS,
+         mutates=['seg_data'],
+         serves=['C11'])
+
+contract('pyx12.x12file.X12Writer.Close',
+         type_cases=[('depth %d' % d, {'self': writer_state(d)}) for d in range(4)],
+         returns=NoneT,
+         requires=W_REQ,
+         ensures=['len(self.loops) == 0', 'readback(self.fd_out.log)[4]', 'len(readback(self.fd_out.log)[0]) == 0'],
+         raises={},
+         serves=['C11'])
